@@ -3,6 +3,7 @@ CONSTANTS
   MaxLen = 5
   PostLen = 3
   Deep = FALSE
+  Prune = TRUE
 INIT Init
 NEXT Next
 CONSTRAINT EmitAll
